@@ -488,7 +488,148 @@ pub fn core_indices(leaves: &[LeafDef]) -> Vec<usize> {
     v
 }
 
+// ---- pattern family: Str / Subsequence over LONG and NON-ASCII patterns,
+// ---- checked directly against their definitions
+
+pub fn pattern_family() -> Vec<String> {
+    let mut v: Vec<String> = vec![];
+    // n distinct ASCII bytes (0x21..), n = 1..=94
+    for n in 1..=94usize {
+        v.push((0..n).map(|i| (0x21 + i as u8) as char).collect());
+    }
+    // all 128 ASCII bytes incl. NUL; repeated letters; long patterns
+    v.push((0..128u8).map(|b| b as char).collect());
+    v.push("abcabcabcabcabcabcabcabcabc".into());
+    v.push("ab".repeat(300));
+    v.push((0..1000usize).map(|i| (b'a' + (i * 7 % 26) as u8) as char).collect());
+    // non-ASCII: 2-, 3-, 4-byte characters at the start, middle, end; sharing lead bytes
+    for s in ["caf\u{e9}", "\u{e9}", "\u{e9}\u{e8}", "\u{2603}x", "x\u{2603}", "\u{1D11E}a\u{1D11F}", "na\u{ef}ve \u{2603}\u{2602} \u{1F600}\u{1F601}", "\u{7ff}\u{800}\u{ffff}\u{10000}\u{10ffff}"] {
+        v.push(s.into());
+    }
+    // every 2-byte character U+0080..U+07FF in one pattern (1920 chars, 3840 bytes)
+    v.push((0x80u32..0x800).filter_map(char::from_u32).collect());
+    v
+}
+
+fn is_subseq(p: &[u8], k: &[u8]) -> bool {
+    let mut i = 0;
+    for &b in k {
+        if i < p.len() && p[i] == b {
+            i += 1;
+        }
+    }
+    i == p.len()
+}
+
+/// Keys around a pattern: the pattern, every prefix, every single deletion /
+/// insertion / substitution (positions thinned for long patterns), doubled.
+fn keys_around(p: &[u8]) -> Vec<Vec<u8>> {
+    let mut out: std::collections::BTreeSet<Vec<u8>> = std::collections::BTreeSet::new();
+    out.insert(vec![]);
+    out.insert(p.to_vec());
+    let mut pp = p.to_vec();
+    pp.extend_from_slice(p);
+    out.insert(pp);
+    let step = (p.len() / 120).max(1);
+    for i in (0..=p.len()).step_by(step) {
+        out.insert(p[..i].to_vec());
+        for b in [0x00u8, b'a', 0x7f, 0x80, 0xa9, 0xff, if i < p.len() { p[i] } else { b'z' }] {
+            let mut m = p.to_vec();
+            m.insert(i, b);
+            out.insert(m);
+            if i < p.len() {
+                let mut m = p.to_vec();
+                m[i] = b;
+                out.insert(m);
+            }
+        }
+        if i < p.len() {
+            let mut m = p.to_vec();
+            m.remove(i);
+            out.insert(m);
+            // interleave: every byte followed by a filler
+            if i == 0 {
+                let m: Vec<u8> = p.iter().flat_map(|&b| [b, b'~']).collect();
+                out.insert(m);
+            }
+        }
+    }
+    out.into_iter().collect()
+}
+
+fn walk_hints<A: Automaton>(a: &A, key: &[u8], accepts: bool, what: &str) -> Result<(), String> {
+    let mut st = a.start();
+    let mut dead_at: Option<usize> = None;
+    let mut always_at: Option<usize> = None;
+    for (i, &b) in key.iter().enumerate() {
+        if !a.can_match(&st) && dead_at.is_none() {
+            dead_at = Some(i);
+        }
+        if a.will_always_match(&st) && always_at.is_none() {
+            always_at = Some(i);
+        }
+        st = a.accept(&st, b);
+    }
+    if a.is_match(&st) != accepts {
+        return Err(format!("{}: is_match is {} for a key of {} bytes, the definition says {}", what, a.is_match(&st), key.len(), accepts));
+    }
+    if let (Some(i), true) = (dead_at, accepts) {
+        return Err(format!("{}: can_match is false after {} bytes of an accepted key", what, i));
+    }
+    if let (Some(i), false) = (always_at, accepts) {
+        return Err(format!("{}: will_always_match is true after {} bytes of a rejected key", what, i));
+    }
+    Ok(())
+}
+
+pub fn run_pattern(pi: usize) -> Result<u64, String> {
+    let fam = pattern_family();
+    let pat = &fam[pi];
+    guard(|| {
+        let p = pat.as_bytes();
+        let keys = keys_around(p);
+        let what = |name: &str| format!("{}(pattern #{}: {} bytes, {} distinct, starts {:?})", name, pi, p.len(), p.iter().collect::<std::collections::BTreeSet<_>>().len(), pat.chars().take(6).collect::<String>());
+        let mut n = 0u64;
+        for k in &keys {
+            n += 4;
+            let eq = &k[..] == p;
+            let sub = is_subseq(p, k);
+            let pre = k.len() >= p.len() && &k[..p.len()] == p;
+            walk_hints(&Str::new(pat), k, eq, &what("Str"))?;
+            walk_hints(&Subsequence::new(pat), k, sub, &what("Subsequence"))?;
+            walk_hints(&Str::new(pat).starts_with(), k, pre, &what("StartsWith(Str)"))?;
+            walk_hints(&Subsequence::new(pat).complement(), k, !sub, &what("Complement(Subsequence)"))?;
+            walk_hints(&Str::new(pat).complement(), k, !eq, &what("Complement(Str)"))?;
+            walk_hints(&Str::new(pat).union(Subsequence::new(pat)), k, eq || sub, &what("Union(Str,Subsequence)"))?;
+        }
+        // through a search over the set of these keys
+        let set = fst::Set::from_iter(keys.iter()).map_err(|e| format!("{:?}", e))?;
+        use fst::{IntoStreamer, Streamer};
+        fn collect<A: Automaton>(mut s: fst::set::Stream<'_, A>) -> Vec<Vec<u8>> {
+            let mut v = vec![];
+            while let Some(k) = s.next() {
+                v.push(k.to_vec());
+            }
+            v
+        }
+        let got = collect(set.search(Str::new(pat)).into_stream());
+        if got != keys.iter().filter(|k| &k[..] == p).cloned().collect::<Vec<_>>() {
+            return Err(format!("{}: Set::search returned {} keys", what("Str"), got.len()));
+        }
+        let got = collect(set.search(Subsequence::new(pat)).into_stream());
+        let want: Vec<Vec<u8>> = keys.iter().filter(|k| is_subseq(p, k)).cloned().collect();
+        if got != want {
+            return Err(format!("{}: Set::search returned {} keys, expected {}", what("Subsequence"), got.len(), want.len()));
+        }
+        Ok(n + 2)
+    })
+    .and_then(|x| x)
+}
+
 pub fn replay(case: &Value) -> Result<String, String> {
+    if let Some(pi) = case["pattern"].as_u64() {
+        return run_pattern(pi as usize).map(|n| format!("{} pattern checks agree", n));
+    }
     let leaves = leaves_with3(case["with3"].as_bool().unwrap_or(false));
     let e = Ex::from_json(&case["expr"]);
     run_expr(&e, &leaves, case["cap"].as_u64().unwrap() as usize, true).map(|o| format!("{} strings agree ({} spec states)", o.strings, o.spec_states))
@@ -510,7 +651,7 @@ pub fn plan(tier: Tier) -> Plan {
     let cap = if thorough { 10 } else { 7 };
     let leaves = Arc::new(leaves_with3(thorough));
     let nl_full = leaves_full().len();
-    p.rule = format!("leaves: AlwaysMatch, Str(s) s in {{'',a,ab,ba}}, Subsequence(p) p in {{'',a,ab,aa}}, every table DFA with 1..2 states (thorough: also 3 states at depth <= 1) over classes {{a, not a}} with EVERY sound hint assignment (can_match >= truth, will_always_match <= truth): {} leaves; expressions: every tree of depth <= 1 over all leaves, every unary operator over those (depth 2), every binary operator over unary-wrapped leaves, and every tree with <= 3 leaves and depth <= 3 over a core leaf set; each built from the REAL StartsWith/Complement/Union/Intersection types (type-erased leaves) and compared, for every byte string over {{a,b,c}} of length <= min(n+1,{}) (n = states of the explicit product DFA of the same expression; thorough also bytes 00/80/ff near the root), with the spec: is_match equal; can_match false only if no accepting continuation exists; will_always_match true only if every continuation accepts. non-trivial = expressions containing at least one combinator", nl_full, cap);
+    p.rule = format!("leaves: AlwaysMatch, Str(s) s in {{'',a,ab,ba}}, Subsequence(p) p in {{'',a,ab,aa}}, every table DFA with 1..2 states (thorough: also 3 states at depth <= 1) over classes {{a, not a}} with EVERY sound hint assignment (can_match >= truth, will_always_match <= truth): {} leaves; expressions: every tree of depth <= 1 over all leaves, every unary operator over those (depth 2), every binary operator over unary-wrapped leaves, and every tree with <= 3 leaves and depth <= 3 over a core leaf set; each built from the REAL StartsWith/Complement/Union/Intersection types (type-erased leaves) and compared, for every byte string over {{a,b,c}} of length <= min(n+1,{}) (n = states of the explicit product DFA of the same expression; thorough also bytes 00/80/ff near the root), with the spec: is_match equal; can_match false only if no accepting continuation exists; will_always_match true only if every continuation accepts; finite family of {} long / non-ASCII patterns (1..94 distinct bytes, all 128 ASCII bytes, 600..3840-byte patterns, 2/3/4-byte characters) for Str and Subsequence alone and under StartsWith/Complement/Union against their definitions on the keys one edit around the pattern, hints checked along each key, and through Set::search. non-trivial = expressions containing at least one combinator", nl_full, cap, pattern_family().len());
     p.assumptions = vec![
         "the combinator state types are opaque, so strings (not implementation states) are enumerated, up to the pumping bound of the specification DFA".into(),
         "weak-but-sound hints (e.g. Str::can_match after a mismatch) are accepted".into(),
@@ -632,6 +773,15 @@ pub fn plan(tier: Tier) -> Plan {
     add(Scope::BofU, "binary-over-unary-wrapped-leaves", (0..nl_full).collect());
     let core = core_indices(&leaves[..nl_full]);
     add(Scope::Core3, "core-leaves-3-leaves-depth<=3", if thorough { core.clone() } else { core.iter().cloned().step_by(2).collect() });
-    p.must_be_nonzero = vec!["expressions_complete_wrt_pumping_bound".into()];
+    for pi in 0..pattern_family().len() {
+        p.units.push(unit("pattern-family-long-and-non-ascii-patterns-(finite-family)", format!("pattern {}", pi), move |st, rep| {
+            st.states += 1;
+            match run_pattern(pi) {
+                Ok(n) => { st.evals += n; st.transitions += n; st.nontrivial += 1; st.count("pattern_checks", n); }
+                Err(msg) => rep.violation(format!("pattern {}", pi), msg, json!({"pattern": pi})),
+            }
+        }));
+    }
+    p.must_be_nonzero = vec!["expressions_complete_wrt_pumping_bound".into(), "pattern_checks".into()];
     p
 }
